@@ -1,4 +1,6 @@
 import ChessVerif.Props.C06
+import ChessVerif.Props.C06real
+import ChessVerif.Model.SearchReal
 #print axioms ChessVerif.Props.C06.go_board_restored
 #print axioms ChessVerif.Props.C06.go_move_legal_or_null
 #print axioms ChessVerif.Props.C06.go_null_only_if_final_partial
@@ -11,3 +13,19 @@ import ChessVerif.Props.C06
 #print axioms ChessVerif.Props.C06.go_null_only_if_final
 #print axioms ChessVerif.Props.C06.go_final_score
 #print axioms ChessVerif.Props.C06.go_final_score_completed
+#print axioms ChessVerif.Props.C06real.real_laws_hold
+#print axioms ChessVerif.Props.C06real.real_laws_hold_any_coefficients
+#print axioms ChessVerif.Props.C06real.newEngine_ok
+#print axioms ChessVerif.Props.C06real.clearEngine_ok
+#print axioms ChessVerif.Props.C06real.go_keeps_ps_invariant_real
+#print axioms ChessVerif.Props.C06real.session_ok
+#print axioms ChessVerif.Props.C06real.go_board_restored_real
+#print axioms ChessVerif.Props.C06real.go_move_legal_or_null_real
+#print axioms ChessVerif.Props.C06real.go_move_legal_or_null_rules
+#print axioms ChessVerif.Props.C06real.go_move_legal_or_null_session
+#print axioms ChessVerif.Props.C06real.go_reusable_real
+#print axioms ChessVerif.Props.C06real.go_again_restores_real
+#print axioms ChessVerif.Props.C06real.final_iff_rules
+#print axioms ChessVerif.Props.C06real.go_null_only_if_final_partial_real
+#print axioms ChessVerif.Props.C06.go_keeps_ps_invariant
+#print axioms ChessVerif.SearchReal.nextNodeType_eq_translated
